@@ -467,6 +467,56 @@ def build(tier, seed):
                     show=lambda a: f'DATEDIF({a}, "d")')
     add('DATEDIF[D]', sp_datedif, 'every ordered pair of whole serials 61..2958465, unit "d" (lower case): days between; #NUM! when start > end')
 
+    def sp_datedif_my(unit, ycon, span, unroll):
+        """DATEDIF "M" / "Y": complete months / years between two dates (end's day-of-month before start's costs one)."""
+        lo = max(61, datetime.date(ycon, 1, 1).toordinal() - REF0)
+        hi = datetime.date(ycon, 12, 31).toordinal() - REF0
+
+        def spec():
+            f = unwrap(XD.DATEDIF)
+            sy, sm, sd, ey, em, ed = [z3.Int(x) for x in ('sy', 'sm', 'sd', 'ey', 'em', 'ed')]
+            cons = [a_ >= lo, a_ <= hi, b_ >= a_ - 40, b_ >= 61, b_ <= a_ + span, b_ <= NMAX, sy == ycon,
+                    DM.civil_axioms(REF0 + a_, sy, sm, sd), DM.civil_axioms(REF0 + b_, ey, em, ed), ey >= ycon - 1, ey <= ycon + span // 365 + 1]
+            months = (ey - sy) * 12 + (em - sm) - z3.If(ed < sd, 1, 0)
+            years = ey - sy - z3.If(z3.Or(em < sm, z3.And(em == sm, ed < sd)), 1, 0)
+            exp = months if unit == 'M' else years
+
+            def encode():
+                DM.RRULE_UNROLL.update(unroll)
+                leaves, it = K.explore(f, dts() + [T.Text(unit)], cons, DM.DATE_MODELS)
+                return leaves, it, {'a': a_, 'b': b_, 'sy': sy, 'sm': sm, 'sd': sd, 'ey': ey, 'em': em, 'ed': ed}
+
+            def bad(l):
+                if l.kind == 'raise':
+                    return True if l.value != 'NumExcelError' else z3.Not(a_ > b_)
+                return z3.Or(a_ > b_, K.to_real(l.value) != z3.ToReal(exp))
+
+            def py_ref(a):
+                if a['a'] > a['b']:
+                    return ('raise', 'NumExcelError')
+                s0, e0 = datetime.date.fromordinal(REF0 + a['a']), datetime.date.fromordinal(REF0 + a['b'])
+                if unit == 'M':
+                    return ('num', float((e0.year - s0.year) * 12 + e0.month - s0.month - (1 if e0.day < s0.day else 0)))
+                return ('num', float(e0.year - s0.year - (1 if (e0.month, e0.day) < (s0.month, s0.day) else 0)))
+
+            def replay(a):
+                got, want = native_call(XD.DATEDIF, a['a'], a['b'], unit), py_ref(a)
+                return got == want, f'DATEDIF({datetime.date.fromordinal(REF0 + a["a"])}, {datetime.date.fromordinal(REF0 + a["b"])}, "{unit}") = {got}, expected {want}'
+
+            def smp(x, dd):
+                s0, e0 = datetime.date.fromordinal(REF0 + x), datetime.date.fromordinal(REF0 + x + dd)
+                return {'a': x, 'b': x + dd, 'sy': s0.year, 'sm': s0.month, 'sd': s0.day, 'ey': e0.year, 'em': e0.month, 'ed': e0.day}
+            samples = [smp(x, dd) for x, dd in ((lo + 14, 31), (lo + 100, 0), (hi - 20, 45), (lo + 200, -5), (lo + 40, min(span, 366))) if lo <= x <= hi and x + dd >= 61]
+            return dict(encode=encode, bad=bad, replay=replay, norm=norm, native=lambda a: native_call(XD.DATEDIF, a['a'], a['b'], unit), samples=samples,
+                        show=lambda a: f'DATEDIF({datetime.date.fromordinal(REF0 + a["a"])}, {datetime.date.fromordinal(REF0 + a["b"])}, "{unit}")')
+        return spec
+    mspan, yspan = (1100, 3700) if tier == 'thorough' else (400, 1500)
+    for ycon in (1900, 1999, 2000, 2023, 2024, 2100, 9000):
+        add(f'DATEDIF[M, start in {ycon}]', sp_datedif_my('M', ycon, mspan, {'MONTHLY': mspan // 28 + 1}),
+            f'start: every whole serial of the year {ycon} (from 61); end: start-40 .. start+{mspan} days: complete months between the dates, #NUM! when start > end', cost=20, timeout=600)
+        add(f'DATEDIF[Y, start in {ycon}]', sp_datedif_my('Y', ycon, yspan, {'YEARLY': yspan // 365 + 1}),
+            f'start: every whole serial of the year {ycon} (from 61); end: start-40 .. start+{yspan} days: complete years between the dates, #NUM! when start > end', cost=20, timeout=600)
+
     def sp_yearfrac():
         f = unwrap(XD.YEARFRAC)
         basis = z3.Int('basis')
